@@ -3,7 +3,8 @@
 (* Judges traces of real download scenarios (harness/xfer) against the     *)
 (* observable obligations of TransferObs.  Each line is an abstract event   *)
 (* projected by props/xfer_common.py from the raw driver trace:            *)
-(*   init      np, plen[], honest                                          *)
+(*   init      np, plen[], honest, good[] (pieces already right in storage:*)
+(*             data-less pieces and pre-existing files)                    *)
 (*   w         storage write exit: p, cls, err, pgood (storage truth after)*)
 (*   snap      loop snapshot: status, have[], done[], banned[], conns[]    *)
 (*   rep       pieces reported to a peer (have / bitfield / have-all)      *)
@@ -13,6 +14,9 @@
 (*   expect    ban expectation for a sole corrupting peer: ok              *)
 (*   redial    connection attempt from a banned address: accepted          *)
 (*   disk      storage truth at the end (class per piece)                  *)
+(*   disk-mutate  storage changed behind the client's back while stopped   *)
+(*             (class per piece afterwards); recorded when the Verify      *)
+(*             command that follows it has been taken by the loop          *)
 (*   resume    resume-database bitfield read back after Close              *)
 (* A failed obligation sets viol (does not block the step).                *)
 (***************************************************************************)
@@ -59,7 +63,8 @@ Keep == UNCHANGED <<np, plen, honest, peerHave>>
 TrWrite ==
     /\ Ev.ev = "w"
     /\ LET bad == Ev.cls \in {"bad", "zero"} /\ ~Ev.err
-       IN /\ good' = IF Ev.p \in Piece THEN (IF Ev.pgood THEN good \cup {Ev.p} ELSE good \ {Ev.p}) ELSE good
+       IN /\ good' = IF Ev.p \in Piece /\ ~Ev.err          \* a failed write leaves the stored bytes as they were
+                    THEN (IF Ev.pgood THEN good \cup {Ev.p} ELSE good \ {Ev.p}) ELSE good
           /\ Note(IF bad THEN "C01.a" ELSE "")
     /\ l' = l + 1 /\ Keep /\ UNCHANGED <<have, reported, banned, conn, bansSeen, idleSince>>
 
@@ -131,8 +136,8 @@ TrRedial ==
     /\ Note(IF Ev.accepted /\ Ev.ip \in bansSeen THEN "C01.e.reused" ELSE "")
     /\ l' = l + 1 /\ Keep /\ UNCHANGED <<good, have, reported, banned, conn, bansSeen, idleSince>>
 
-TrDisk ==                                          \* storage truth recomputed by the harness at the end
-    /\ Ev.ev = "disk"
+TrDisk ==                                          \* storage truth recomputed by the harness (end of run / after damage)
+    /\ Ev.ev \in {"disk", "disk-mutate"}
     /\ good' = {p \in Piece : Ev.class[p + 1] = "good"}
     /\ l' = l + 1 /\ Keep /\ UNCHANGED <<have, reported, banned, conn, bansSeen, idleSince>>
 
